@@ -1,4 +1,4 @@
-check("C10", "model_checking",
+check("C10", "model_checking Under `--wasm` every structure of MC_Layout is measured by the real binary (`|:T|`, through a constant, `|:[3]T|`; values read off the IR) against Layout.tla SizeOfT with 4-byte pointers and usize.",
       "TLC evaluates constant expressions (operator matrix and depth-2 trees) with the same Machine.tla that defines run-time "
       "behaviour, and lengths and sizes with Layout.tla; every cell is compiled three ways (constant with literal operands, chain "
       "of named constants in reverse dependency order, run time from variables) and every printed value is compared with the "
